@@ -55,6 +55,9 @@ pub struct Tables {
     pub handlers: Vec<HandlerInfo>,
     pub handled_keys: Vec<String>,
     pub listed_keys: Vec<String>,
+    /// request name -> members of its parameter struct (name, Rust type); "*" -> every member name any
+    /// handler or helper reads
+    pub params: std::collections::HashMap<String, Vec<(String, String)>>,
 }
 
 fn load_tables(path: &str) -> Tables {
@@ -80,8 +83,23 @@ fn load_tables(path: &str) -> Tables {
             .map(|s| s.as_str().expect("str").to_string())
             .collect()
     };
+    let mut params = std::collections::HashMap::new();
+    if let Some(obj) = v["params"].as_object() {
+        for (name, fields) in obj {
+            let fs: Vec<(String, String)> = fields
+                .as_array()
+                .map(|a| {
+                    a.iter()
+                        .filter_map(|f| Some((f[0].as_str()?.to_string(), f[1].as_str()?.to_string())))
+                        .collect()
+                })
+                .unwrap_or_default();
+            params.insert(name.clone(), fs);
+        }
+    }
     Tables {
         handlers,
+        params,
         handled_keys: strs(&v["config_set"]["handled_keys"]),
         listed_keys: strs(&v["config_set"]["listed_keys"]),
     }
@@ -157,6 +175,8 @@ pub struct World {
     /// token strings that are certainly not valid in any correct implementation (expired before the case
     /// began, disabled in the file, revoked through the store's API by the harness)
     pub dead: Mutex<Vec<String>>,
+    /// (id, token) of the tokens minted by pair.claim in this world (the id is `pair-<clock second>`)
+    pub minted: Mutex<Vec<(String, String)>>,
     keep_dir: bool,
     listener_fds: Vec<i32>,
     stop_responder: Arc<AtomicBool>,
@@ -190,7 +210,8 @@ fn runtime_settings() -> RuntimeSettings {
             enabled: false,
             service_name: "truST".into(),
             advertise: false,
-            interfaces: Vec::new(),
+            // non-empty, so that an accepted empty list is a change
+            interfaces: vec!["init0".into()],
         },
         MeshSettings {
             enabled: false,
@@ -198,8 +219,8 @@ fn runtime_settings() -> RuntimeSettings {
             tls: false,
             // config.set palette never sets this value, so that every accepted mesh.auth_token is a change
             auth_token: Some("initial-mesh-token".into()),
-            publish: Vec::new(),
-            subscribe: indexmap::IndexMap::new(),
+            publish: vec!["init.topic".into()],
+            subscribe: [(smol_str::SmolStr::new("init.topic"), smol_str::SmolStr::new("init_alias"))].into_iter().collect(),
         },
         SimulationSettings {
             enabled: false,
@@ -508,6 +529,7 @@ impl World {
             alarm_id,
             issued: Mutex::new(issued),
             dead: Mutex::new(dead),
+            minted: Mutex::new(Vec::new()),
             keep_dir: false,
             listener_fds,
             stop_responder,
@@ -526,7 +548,7 @@ impl World {
         let Ok(req) = serde_json::from_str::<J>(text).and_then(serde_json::from_value::<MirrorRequest>) else {
             return "-";
         };
-        let configured = self.state.auth_token.lock().unwrap().as_ref().map(|t| t.to_string());
+        let configured = self.state.auth_token.lock().unwrap_or_else(|e| e.into_inner()).as_ref().map(|t| t.to_string());
         match (configured, req.auth) {
             (None, _) => "open",
             (Some(_), None) => "no",
@@ -740,7 +762,7 @@ fn hexs(s: &str) -> String {
 
 /// `good`: for config.set entries whose value the model does not interpret, whether the palette
 /// entry is a well-formed value for that key (generator knowledge, not the implementation's answer).
-fn abstract_line(bytes: &[u8], eff: bool, nonce: &str, bad_keys: &[String], cred: &str) -> String {
+fn abstract_line(bytes: &[u8], eff: u8, nonce: &str, bad_keys: &[String], cred: &str) -> String {
     let raw = hex(bytes);
     // transport.rs read_request_line: drop one trailing "\r" (the "\n" is the harness's own terminator),
     // then String::from_utf8_lossy: invalid bytes reach the parser as U+FFFD
@@ -765,7 +787,7 @@ fn abstract_line(bytes: &[u8], eff: bool, nonce: &str, bad_keys: &[String], cred
         req.id,
         hexs(&req.r#type),
         auth,
-        if eff { 1 } else { 0 },
+        eff,
         if nonce.is_empty() { "-".to_string() } else { hexs(nonce) }
     );
     match &req.params {
@@ -1235,6 +1257,28 @@ struct CaseWriter<'a> {
     nontrivial: bool,
 }
 
+/// Child processes stream what they write, line by line, so that the parent knows which request was in
+/// flight when a child died (process abort = the server took the whole runtime down).
+static STREAM: Mutex<Option<(std::fs::File, usize)>> = Mutex::new(None);
+
+fn stream_begin() {
+    if let Some((_, flushed)) = STREAM.lock().unwrap().as_mut() {
+        *flushed = 0;
+    }
+}
+
+/// Write everything of the current case's buffer that has not been written yet, then `extra`.
+fn stream_sync(buf: &str, extra: &str) {
+    if let Some((file, flushed)) = STREAM.lock().unwrap().as_mut() {
+        let _ = file.write_all(buf[*flushed..].as_bytes());
+        *flushed = buf.len();
+        if !extra.is_empty() {
+            let _ = file.write_all(extra.as_bytes());
+            let _ = file.write_all(b"\n");
+        }
+    }
+}
+
 fn world_lines(cfg: &WorldCfg, w: &World, out: &mut Out) {
     out.line(format!(
         "world token={} reqauth={} debug={} mode={} pairing={} now={} transport={}",
@@ -1290,7 +1334,24 @@ fn do_line_as(
     cw: &mut CaseWriter,
     cred: &str,
 ) -> (String, Option<J>) {
+    do_line_full(w, client, bytes, eff as u8, bad_keys, cw, cred)
+}
+
+/// `eff`: 0 = the generator asserts the parameters are rejected / ineffective, 1 = well-formed and effective,
+/// 2 = boundary values: whether the handler accepts them is not asserted; if the request is dispatched the
+/// compared answer says `fx=*` and the observed probes go into an `obs` line (checked against the upper
+/// bound of the request type by checks/c18.py).
+fn do_line_full(
+    w: &World,
+    client: &mut Client,
+    bytes: &[u8],
+    eff: u8,
+    bad_keys: &[String],
+    cw: &mut CaseWriter,
+    cred: &str,
+) -> (String, Option<J>) {
     let valid = w.judge(bytes);
+    stream_sync(&cw.out.buf, &format!("#pending {}", abstract_line(bytes, eff, "", bad_keys, &format!("{cred} valid={valid}"))));
     let before = w.probes();
     let t0 = std::time::Instant::now();
     let reply = client.send(bytes);
@@ -1319,9 +1380,22 @@ fn do_line_as(
         w.issued.lock().unwrap().push(tok.to_string());
     }
     cw.out.count(&format!("valid:{valid}"));
-    cw.out.line(abstract_line(bytes, eff, &nonce, bad_keys, &format!("{cred} valid={valid}")));
+    if let (Some(tok), Some(store_now)) = (
+        value.as_ref().and_then(|v| v.get("result")).and_then(|r| r.get("token")).and_then(J::as_str),
+        w.store.as_ref().map(|_| w.clock.load(Ordering::SeqCst)),
+    ) {
+        w.minted.lock().unwrap().push((format!("pair-{store_now}"), tok.to_string()));
+    }
+    let op_line = abstract_line(bytes, eff, &nonce, bad_keys, &format!("{cred} valid={valid}"));
+    let is_req = op_line.starts_with("req ");
+    cw.out.line(op_line);
     let fxs = if fx.is_empty() { "-".to_string() } else { fx.join(",") };
-    cw.out.line(format!("impl {class} fx={fxs}"));
+    if eff == 2 && is_req && class.ends_with(" handled") {
+        cw.out.line(format!("impl {class} fx=*"));
+        cw.out.line(format!("obs fx={fxs}"));
+    } else {
+        cw.out.line(format!("impl {class} fx={fxs}"));
+    }
     let short = class.split(' ').last().unwrap_or("").split(':').next().unwrap_or("").to_string();
     cw.out.count(&format!("reply:{short}"));
     if !fx.is_empty() {
@@ -1382,6 +1456,11 @@ fn direct_revoke(w: &World, id: &str, cw: &mut CaseWriter) {
         for t in std_tokens() {
             if t.id == id {
                 w.dead.lock().unwrap().push(t.token);
+            }
+        }
+        for (mid, tok) in w.minted.lock().unwrap().iter() {
+            if mid == id {
+                w.dead.lock().unwrap().push(tok.clone());
             }
         }
     }
@@ -1493,6 +1572,331 @@ fn reload_scenario(rng: &mut Rng, base: &mut Base, t: &Tables, cfg: &WorldCfg, o
         cw.out.line(format!("impl {}", if ok { "ok" } else { "fail" }));
     }
     let _ = t;
+    cw.nontrivial
+}
+
+
+// ---------------------------------------------------------------------------------------------
+// boundary parameters
+// ---------------------------------------------------------------------------------------------
+
+/// Largest millisecond value `Duration::from_millis` can take without overflowing `i64` nanoseconds.
+/// Larger values are the recorded finding C18-config-duration-overflow; the generator stays below.
+const MAX_SAFE_MILLIS: u64 = 9_223_372_036_854;
+
+fn int_boundaries() -> Vec<J> {
+    vec![
+        json!(0), json!(1), json!(-1), json!(2147483647u64), json!(4294967295u64), json!(4294967296u64),
+        json!(9007199254740992u64), json!(9223372036854775807u64), json!(9223372036854775808u64),
+        json!(18446744073709551615u64), json!(i64::MIN), json!(1_000_000_000_000u64), json!(1_000_000_000_000_000u64),
+        json!(100_000_000u64), json!(1.5), json!(1e308), json!(-0.0), json!("5"), J::Null, json!([]), json!({}), json!(true),
+    ]
+}
+
+fn string_boundaries() -> Vec<J> {
+    vec![
+        json!(""), json!(" "), json!("\u{0}"), json!("a".repeat(100_000)), json!("../../../etc/passwd"),
+        json!("%IX4294967295.7"), json!("%IX4294967296.0"), json!("%QX0.8"), json!("%MW99999999999999999999"),
+        json!("%I*"), json!("%"), json!("global:"), json!("global:\u{0}"), json!("retain: x "),
+        json!("instance:4294967295:x"), json!("instance:4294967296:x"), json!("instance:-1:x"), json!("instance::"),
+        json!("9223372036854775807"), json!("9223372036854775808"), json!("-9223372036854775808"), json!("TRUE"),
+        json!("1e999"), json!("\u{3c0}\u{2211}\u{1f600}"), json!("\""), json!("main.st"), json!("/"), json!("AAAA"),
+        json!("A".repeat(65_536)), json!(5), J::Null, json!([]), json!({}), json!(false),
+    ]
+}
+
+fn vec_boundaries() -> Vec<J> {
+    vec![
+        json!([]), json!([0]), json!([1, 1, 1]), json!([4294967295u64]), json!([4294967296u64]), json!([-1]), json!(["x"]),
+        json!([""]), J::Array((0..10_000).map(|i| json!(i)).collect()), J::Array((0..2_000).map(|_| json!("w")).collect()),
+        json!([[1]]), json!([null]), J::Null, json!(5), json!("x"), json!({}),
+    ]
+}
+
+fn deep(depth: usize) -> J {
+    let mut v = json!(1);
+    for _ in 0..depth {
+        v = json!([v]);
+    }
+    v
+}
+
+enum FieldKind {
+    Int,
+    Str,
+    Vec,
+    Any,
+}
+
+fn field_kind(ty: &str) -> FieldKind {
+    if ty.contains("Vec<") {
+        FieldKind::Vec
+    } else if ty.contains("String") {
+        FieldKind::Str
+    } else if ["u8", "u16", "u32", "u64", "u128", "usize", "i32", "i64"].iter().any(|k| ty.contains(k)) {
+        FieldKind::Int
+    } else {
+        FieldKind::Any
+    }
+}
+
+/// The boundary lines for one request type: for every member of its parameter struct the two values that
+/// matter most for its kind, then random picks (own members, or any member name some handler reads).
+fn boundary_plan(name: &str, t: &Tables, rng: &mut Rng, extra: usize) -> Vec<(String, J)> {
+    let own: Vec<(String, String)> = t.params.get(name).cloned().unwrap_or_default();
+    let pool: Vec<(String, String)> = t.params.get("*").cloned().unwrap_or_default();
+    let mut plan: Vec<(String, J)> = Vec::new();
+    let takes = t.handlers.iter().find(|h| h.name == name).map(|h| h.takes_params).unwrap_or(true);
+    if own.is_empty() && takes {
+        // the members this handler reads could not be found in the source: try every member name known
+        for (f, _) in &pool {
+            plan.push((f.clone(), json!(u64::MAX)));
+            plan.push((f.clone(), json!(1_000_000_000_000u64)));
+        }
+    }
+    for (f, ty) in &own {
+        match field_kind(ty) {
+            FieldKind::Int | FieldKind::Any => {
+                plan.push((f.clone(), json!(u64::MAX)));
+                plan.push((f.clone(), json!(1_000_000_000_000u64)));
+            }
+            FieldKind::Str => {
+                plan.push((f.clone(), json!("")));
+                plan.push((f.clone(), json!("a".repeat(100_000))));
+            }
+            FieldKind::Vec => {
+                plan.push((f.clone(), J::Array((0..10_000).map(|i| json!(i)).collect())));
+                plan.push((f.clone(), json!([4294967296u64])));
+            }
+        }
+    }
+    for _ in 0..extra {
+        let (f, ty) = if !own.is_empty() && rng.chance(7, 10) {
+            rng.pick(&own).clone()
+        } else if !pool.is_empty() {
+            rng.pick(&pool).clone()
+        } else {
+            ("x".to_string(), "any".to_string())
+        };
+        let values = match field_kind(&ty) {
+            FieldKind::Int => int_boundaries(),
+            FieldKind::Str => string_boundaries(),
+            FieldKind::Vec => vec_boundaries(),
+            FieldKind::Any => {
+                let mut v = int_boundaries();
+                v.extend(string_boundaries());
+                v.extend(vec_boundaries());
+                v.push(deep(100));
+                v.push(deep(126));
+                v
+            }
+        };
+        plan.push((f, rng.pick(&values).clone()));
+    }
+    plan
+}
+
+/// Whether `handle_config_set` accepts `v` for a key whose value the model does not interpret (the
+/// validation rules of expect_bool / expect_non_empty_string / expect_positive_i64 / expect_string_array /
+/// expect_string_map / the three enum parsers, restated by the generator).
+fn config_good(key: &str, v: &J) -> bool {
+    let nonempty = |x: &J| x.as_str().map(|s| !s.trim().is_empty()).unwrap_or(false);
+    match key {
+        "watchdog.enabled" | "web.enabled" | "web.tls" | "discovery.enabled" | "discovery.advertise" | "mesh.enabled"
+        | "mesh.tls" => v.is_boolean(),
+        "log.level" | "web.listen" | "mesh.listen" | "discovery.service_name" => nonempty(v),
+        "watchdog.timeout_ms" | "retain.save_interval_ms" => v
+            .as_i64()
+            .or_else(|| v.as_u64().and_then(|n| i64::try_from(n).ok()))
+            .map(|n| n >= 1)
+            .unwrap_or(false),
+        "watchdog.action" | "fault.policy" => v
+            .as_str()
+            .map(|s| matches!(s.trim().to_ascii_lowercase().as_str(), "halt" | "safe_halt" | "restart"))
+            .unwrap_or(false),
+        "retain.mode" => v.as_str().map(|s| matches!(s.trim().to_ascii_lowercase().as_str(), "none" | "file")).unwrap_or(false),
+        "discovery.interfaces" | "mesh.publish" => v.as_array().map(|a| a.iter().all(nonempty)).unwrap_or(false),
+        "mesh.subscribe" => v
+            .as_object()
+            .map(|m| m.iter().all(|(k, x)| !k.trim().is_empty() && nonempty(x)))
+            .unwrap_or(false),
+        _ => false,
+    }
+}
+
+/// A boundary value for a config.set key the model does not interpret, with its goodness.
+fn config_boundary(key: &str, rng: &mut Rng) -> (J, bool) {
+    let v = match key {
+        "watchdog.timeout_ms" | "retain.save_interval_ms" => rng
+            .pick(&[
+                json!(1), json!(0), json!(-1), json!(4294967296u64), json!(MAX_SAFE_MILLIS), json!(1.0), json!(1.5),
+                json!("1"), J::Null, json!([1]), json!(i64::MIN), json!(u64::MAX), json!(9223372036854775808u64),
+            ])
+            .clone(),
+        "discovery.interfaces" | "mesh.publish" => rng
+            .pick(&[json!([]), json!(["a"]), json!([" a "]), json!(["a", ""]), json!(["a", null]), J::Array((0..5_000).map(|_| json!("w")).collect()), json!("a"), J::Null])
+            .clone(),
+        "mesh.subscribe" => rng
+            .pick(&[json!({}), json!({"a": "b"}), json!({"": "b"}), json!({" ": "b"}), json!({"a": " "}), json!({"a": 1}), json!([]), J::Null])
+            .clone(),
+        "watchdog.action" | "fault.policy" | "retain.mode" => rng
+            .pick(&[json!(" HALT "), json!("Safe_Halt"), json!("restart"), json!(" None"), json!("FILE"), json!(""), json!("halt\u{0}"), json!(1), J::Null, json!("a".repeat(50_000))])
+            .clone(),
+        "log.level" | "web.listen" | "mesh.listen" | "discovery.service_name" => rng
+            .pick(&[json!("x"), json!(" x "), json!(""), json!("\t"), json!("a".repeat(100_000)), json!("\u{0}"), json!(0), J::Null, json!(["x"])])
+            .clone(),
+        _ => rng.pick(&[json!(true), json!(false), json!("true"), json!(1), json!(0), J::Null, json!([true])]).clone(),
+    };
+    let good = config_good(key, &v);
+    (v, good)
+}
+
+/// Boundary-parameter stream: one request type per case (round robin over the dispatcher's names), every
+/// member of its parameter struct hit with the extreme values of its kind, each line on a connection that is
+/// known to be alive.  A line without a reply (connection thread died, or the whole child process aborted)
+/// ends the case.
+fn boundary_scenario(index: u64, rng: &mut Rng, base: &mut Base, t: &Tables, out: &mut Out) -> bool {
+    let h = &t.handlers[(index % t.handlers.len() as u64) as usize];
+    let mut cfg = gen_cfg(rng, None);
+    cfg.pairing = true;
+    if !rng.chance(1, 6) {
+        cfg.debug_enabled = true;
+    }
+    if cfg.token.as_deref() == Some("") {
+        cfg.token = Some(ADMIN_TOKEN.to_string());
+    }
+    let w = World::new(base, &cfg);
+    world_lines(&cfg, &w, out);
+    let mut cw = CaseWriter { out, nontrivial: false };
+    cw.out.count("scenario:boundary");
+    let admin: Option<String> = cfg.token.clone();
+    let pname = palette_name(&h.name, t).to_string();
+    let exact = matches!(pname.as_str(), "config.set" | "pair.start" | "pair.claim" | "pair.list" | "pair.revoke");
+    let base_params: Map<String, J> = variants_for(&h.name, &w, t, rng)
+        .into_iter()
+        .find_map(|v| match v.params {
+            Some(J::Object(m)) if v.eff => Some(m),
+            _ => None,
+        })
+        .unwrap_or_default();
+    let mut client = w.connect();
+    if pname == "config.set" {
+        for _ in 0..8 {
+            let keys: Vec<&String> = t.handled_keys.iter().filter(|k| !INTERPRETED_KEYS.contains(&k.as_str())).collect();
+            let mut map = Map::new();
+            let mut bad = Vec::new();
+            for _ in 0..1 + rng.below(2) {
+                let k = (*rng.pick(&keys)).clone();
+                let (v, good) = config_boundary(&k, rng);
+                bad.retain(|b| b != &k);
+                if !good {
+                    bad.push(k.clone());
+                }
+                map.insert(k, v);
+            }
+            if rng.chance(1, 3) {
+                let k = *rng.pick(INTERPRETED_KEYS);
+                map.insert(k.to_string(), interpreted_value(k, rng));
+            }
+            let b = request_bytes(1 + rng.below(99999), &h.name, admin.as_deref(), Some(&J::Object(map)), rng);
+            // eff=2: repeated / boundary values may equal what is already set, so the probe set is only bounded
+            // (`obs`); the model still applies the accepted keys to its own gate state
+            let (class, _) = do_line_full(&w, &mut client, &b, 2, &bad, &mut cw, "-");
+            if class == "closed" || class == "hang" {
+                return true;
+            }
+        }
+        claimcheck(&w, &mut cw);
+        return cw.nontrivial;
+    }
+    let plan = boundary_plan(&h.name, t, rng, 6);
+    for (field, mut value) in plan {
+        if pname == "debug.evaluate" {
+            // recorded finding C18-debug-evaluate-stack-overflow: long / deeply nested expressions overflow the
+            // connection thread's stack and abort the process; the stream stays below, the corpus replays it
+            if let Some(text) = value.as_str() {
+                if text.len() > 64 {
+                    value = json!(text.chars().take(64).collect::<String>());
+                }
+            }
+        }
+        let mut m = base_params.clone();
+        m.insert(field, value);
+        if rng.chance(1, 8) {
+            m.insert("deep".into(), deep(100));
+        }
+        let auth = if rng.chance(5, 6) { admin.clone() } else { cred_token(CREDS[rng.below(CREDS.len() as u64) as usize]) };
+        let b = request_bytes(1 + rng.below(99999), &h.name, auth.as_deref(), Some(&J::Object(m)), rng);
+        cw.out.count(&format!("boundary:{}", h.name));
+        let (class, _) = do_line_full(&w, &mut client, &b, if exact { 0 } else { 2 }, &[], &mut cw, "-");
+        if class == "closed" || class == "hang" {
+            // no reply: the model expects one, so this is already a disagreement; nothing more to learn here
+            return true;
+        }
+    }
+    claimcheck(&w, &mut cw);
+    cw.nontrivial
+}
+
+/// Two pairings claimed within the same clock second share the id `pair-<second>`; revoking that id must
+/// disable both (sometimes the clock ticks in between, then the ids differ and only one goes).
+fn same_second_scenario(rng: &mut Rng, base: &mut Base, out: &mut Out) -> bool {
+    let mut cfg = gen_cfg(rng, None);
+    cfg.pairing = true;
+    if cfg.token.as_deref() == Some("") || rng.chance(2, 3) {
+        cfg.token = Some(ADMIN_TOKEN.to_string());
+    }
+    let w = World::new(base, &cfg);
+    world_lines(&cfg, &w, out);
+    let mut cw = CaseWriter { out, nontrivial: false };
+    cw.out.count("scenario:same-second-claims");
+    let admin: Option<String> = cfg.token.clone();
+    let mut client = w.connect();
+    let mut minted: Vec<(String, Option<String>)> = Vec::new();
+    let rounds = 2 + rng.below(2);
+    for k in 0..rounds {
+        let b = request_bytes(30 + k, "pair.start", admin.as_deref(), None, rng);
+        let (_, v) = do_line(&w, &mut client, &b, true, &[], &mut cw);
+        let code = v.as_ref().and_then(|v| v["result"]["code"].as_str()).unwrap_or("000000").to_string();
+        let role = *rng.pick(&["viewer", "operator", "engineer", "engineer", "admin"]);
+        let b = request_bytes(40 + k, "pair.claim", admin.as_deref(), Some(&json!({"code": code, "role": role})), rng);
+        let (_, v) = do_line(&w, &mut client, &b, true, &[], &mut cw);
+        let id = format!("pair-{}", w.clock.load(Ordering::SeqCst));
+        minted.push((id, v.as_ref().and_then(|v| v["result"]["token"].as_str()).map(str::to_string)));
+        if rng.chance(1, 5) {
+            w.clock.fetch_add(1, Ordering::SeqCst);
+            cw.out.line("tick 1");
+        }
+    }
+    // revoke the id of one of them
+    let victim = minted[rng.below(minted.len() as u64) as usize].0.clone();
+    if rng.chance(1, 3) {
+        direct_revoke(&w, &victim, &mut cw);
+    } else {
+        let b = request_bytes(50, "pair.revoke", admin.as_deref(), Some(&json!({"id": victim})), rng);
+        do_line(&w, &mut client, &b, true, &[], &mut cw);
+        if rng.chance(1, 4) {
+            // revoking again reports success and changes nothing
+            let b = request_bytes(51, "pair.revoke", admin.as_deref(), Some(&json!({"id": victim})), rng);
+            do_line(&w, &mut client, &b, true, &[], &mut cw);
+        }
+    }
+    // every minted token is presented, the later ones first
+    let mut restart_used = false;
+    for (_, tok) in minted.iter().rev() {
+        let auth = tok.clone().or_else(|| cred_token("wrong"));
+        let (ty, params) = if restart_used {
+            rng.pick(&[("status", None), ("io.read", None)]).clone()
+        } else {
+            rng.pick(&[("status", None), ("io.read", None), ("restart", Some(json!({"mode": "warm"}))), ("io.write", Some(json!({"address": "%IX0.1", "value": "true"})))]).clone()
+        };
+        if ty == "restart" || ty == "io.write" {
+            restart_used = true;
+        }
+        let b = request_bytes(60 + rng.below(1000), ty, auth.as_deref(), params.as_ref(), rng);
+        do_line(&w, &mut client, &b, true, &[], &mut cw);
+    }
+    claimcheck(&w, &mut cw);
     cw.nontrivial
 }
 
@@ -1679,7 +2083,19 @@ fn run_case(n: u64, args: &Args, base: &mut Base, t: &Tables, out: &mut Out) {
         drop(client);
         drop(w);
     } else {
-        let kind = (n - ex) % 9;
+        let kind = (n - ex) % 11;
+        if kind == 9 || kind == 10 {
+            let nontrivial = if kind == 9 {
+                boundary_scenario((n - ex) / 11, &mut rng, base, t, out)
+            } else {
+                same_second_scenario(&mut rng, base, out)
+            };
+            if nontrivial {
+                out.line("tag nontrivial");
+            }
+            out.line("end");
+            return;
+        }
         let cfg = gen_cfg(&mut rng, None);
         let mut cfg = cfg;
         if kind == 8 {
@@ -1878,45 +2294,233 @@ fn replay_findings(base: &mut Base, out: &mut Out) {
         let free = w.state.metadata.try_lock().is_ok();
         out.count(&format!("finding:debug-evaluate-metadata-lock-free:{free}"));
     }
+    // (3) witnesses that can abort the process: each in a child process of its own
+    let probe = |line: &str| -> String {
+        let exe = std::env::current_exe().expect("own path");
+        let tables = TABLES_PATH.lock().unwrap().clone();
+        match std::process::Command::new(exe).args(["c18", "--tables", &tables, "--probe-child", &hex(line.as_bytes())]).output() {
+            Ok(o) if o.status.success() => String::from_utf8_lossy(&o.stdout).trim().replace(' ', "_"),
+            Ok(_) => "crash".to_string(),
+            Err(_) => "probe-failed".to_string(),
+        }
+    };
+    // C18-debug-evaluate-stack-overflow: a 400-byte expression overflows the 2 MB stack of the connection thread
+    let expr = format!("1{}", "+1".repeat(200));
+    let r = probe(&format!("{{\"id\":6,\"type\":\"debug.evaluate\",\"params\":{{\"expression\":\"{expr}\"}}}}"));
+    out.count(&format!("finding:debug-evaluate-deep:{r}"));
+    // C18-config-duration-overflow: Duration::from_millis(millis * 1_000_000) overflows i64
+    let r = probe("{\"id\":7,\"type\":\"config.set\",\"params\":{\"watchdog.timeout_ms\":9223372036855}}");
+    out.count(&format!("finding:config-duration-overflow:{r}"));
+}
+
+static TABLES_PATH: Mutex<String> = Mutex::new(String::new());
+
+/// Child process: run the cases of one slice, streaming every line to `args.out`.
+fn run_child(args: &Args, t: &Tables, numbers: &[u64], slice: usize, nslices: usize, from: usize) -> i32 {
+    let limit_mb = args.extra_usize("aslimit-mb", 4096) as u64;
+    unsafe {
+        // a request that makes the server ask for absurd amounts of memory must fail to get it (and abort
+        // this child, which the parent observes) instead of exhausting the machine
+        let lim = libc::rlimit {
+            rlim_cur: limit_mb * 1024 * 1024,
+            rlim_max: limit_mb * 1024 * 1024,
+        };
+        libc::setrlimit(libc::RLIMIT_AS, &lim);
+    }
+    let file = std::fs::File::create(&args.out).expect("child output");
+    *STREAM.lock().unwrap() = Some((file, 0));
+    let mut base = Base::new();
+    for (i, n) in numbers.iter().enumerate() {
+        if i < from || i % nslices != slice {
+            continue;
+        }
+        let mut o = Out::new();
+        stream_begin();
+        run_case(*n, args, &mut base, t, &mut o);
+        let stats = serde_json::to_string(&o.stats).unwrap();
+        stream_sync(&o.buf, &format!("#stats {stats}"));
+    }
+    0
+}
+
+struct ChildResult {
+    cases: BTreeMap<u64, String>,
+    stats: BTreeMap<String, u64>,
+    /// case number that was running when the child died
+    crashed_in: Option<u64>,
+}
+
+fn parse_child_file(path: &str) -> ChildResult {
+    let text = String::from_utf8_lossy(&std::fs::read(path).unwrap_or_default()).to_string();
+    let mut res = ChildResult { cases: BTreeMap::new(), stats: BTreeMap::new(), crashed_in: None };
+    let mut cur: Option<(u64, String)> = None;
+    let mut pending: Option<String> = None;
+    for line in text.lines() {
+        if let Some(rest) = line.strip_prefix("#pending ") {
+            pending = Some(rest.to_string());
+        } else if let Some(rest) = line.strip_prefix("#stats ") {
+            if let Ok(m) = serde_json::from_str::<BTreeMap<String, u64>>(rest) {
+                for (k, v) in m {
+                    *res.stats.entry(k).or_insert(0) += v;
+                }
+            }
+        } else if let Some(rest) = line.strip_prefix("case ") {
+            cur = Some((rest.trim().parse().unwrap_or(0), format!("{line}\n")));
+            pending = None;
+        } else if let Some((n, buf)) = cur.as_mut() {
+            buf.push_str(line);
+            buf.push('\n');
+            if line.starts_with("req ") || line.starts_with("line ") {
+                pending = None;
+            }
+            if line == "end" {
+                res.cases.insert(*n, std::mem::take(buf));
+                cur = None;
+            }
+        }
+    }
+    if let Some((n, mut buf)) = cur {
+        // the child died inside this case: the request in flight never got a reply
+        if let Some(op) = pending {
+            buf.push_str(&op);
+            buf.push('\n');
+            buf.push_str("impl crash fx=-\n");
+        }
+        buf.push_str("tag nontrivial\ntag crash\nend\n");
+        res.cases.insert(n, buf);
+        res.crashed_in = Some(n);
+        *res.stats.entry("reply:crash".into()).or_insert(0) += 1;
+    }
+    res
 }
 
 pub fn run(args: &Args) -> i32 {
     let tables_path = args.extra.get("tables").cloned().unwrap_or_else(|| "C18.tables.json".into());
     let t = load_tables(&tables_path);
-    let mut out = Out::new();
-    let started = std::time::Instant::now();
+    *TABLES_PATH.lock().unwrap() = tables_path.clone();
     let ex = exhaustive_size(&t);
     let numbers: Vec<u64> = match args.only {
         Some(n) => vec![n],
         None => (0..ex + args.cases).collect(),
     };
-    // cases are independent (own world, own RNG stream): run them on a few threads, emit in case order
-    let nthreads = args.extra_usize("threads", 4).max(1);
-    let slots: Vec<Mutex<Option<Out>>> = numbers.iter().map(|_| Mutex::new(None)).collect();
-    std::thread::scope(|scope| {
-        for tid in 0..nthreads {
-            let numbers = &numbers;
-            let slots = &slots;
-            let t = &t;
-            scope.spawn(move || {
-                let mut base = Base::new();
-                for (i, n) in numbers.iter().enumerate() {
-                    if i % nthreads != tid {
-                        continue;
-                    }
-                    let mut o = Out::new();
-                    run_case(*n, args, &mut base, t, &mut o);
-                    *slots[i].lock().unwrap() = Some(o);
-                }
-            });
+    if let Some(hexline) = args.extra.get("probe-child") {
+        // one line against a fresh world (no token, debug on, debug mode): prints the reply class
+        let mut base = Base::new();
+        let cfg = WorldCfg { token: None, requires_auth: false, debug_enabled: true, debug_mode: true, pairing: false, tokens: vec![], tcp: false };
+        let w = World::new(&mut base, &cfg);
+        let mut c = w.connect();
+        let r = c.send(&crate::util::unhex(hexline));
+        println!("{}", classify_reply(&r).0);
+        return 0;
+    }
+    if let Some(hexline) = args.extra.get("probe") {
+        // the same in a child process, so that a process abort is an observation
+        let exe = std::env::current_exe().expect("own path");
+        let outp = std::process::Command::new(exe)
+            .args(["c18", "--tables", &tables_path, "--probe-child", hexline])
+            .output()
+            .expect("probe child");
+        let err = String::from_utf8_lossy(&outp.stderr);
+        println!(
+            "probe: {} ({}) {}",
+            if outp.status.success() { String::from_utf8_lossy(&outp.stdout).trim().to_string() } else { "crash".to_string() },
+            outp.status,
+            err.lines().rev().take(3).collect::<Vec<_>>().join(" | ")
+        );
+        return 0;
+    }
+    if let Some(spec) = args.extra.get("child") {
+        let mut it = spec.split('/');
+        let slice: usize = it.next().and_then(|x| x.parse().ok()).unwrap_or(0);
+        let nslices: usize = it.next().and_then(|x| x.parse().ok()).unwrap_or(1);
+        return run_child(args, &t, &numbers, slice, nslices, args.extra_usize("child-from", 0));
+    }
+    let mut out = Out::new();
+    let started = std::time::Instant::now();
+    // Cases are independent (own world, own RNG stream).  They run in a few CHILD PROCESSES (with an address
+    // space limit), so that a request that aborts the server's process is an observation, not the end of
+    // the run: the parent notes which request was in flight and starts a new child after the dead one.
+    let nslices = if args.only.is_some() { 1 } else { args.extra_usize("threads", 4).max(1) };
+    let exe = std::env::current_exe().expect("own path");
+    let mut all: BTreeMap<u64, String> = BTreeMap::new();
+    let mut children: Vec<(usize, usize, std::process::Child, String)> = Vec::new();
+    let spawn = |slice: usize, from: usize, attempt: usize| -> (std::process::Child, String) {
+        let path = format!("{}.child{slice}.{attempt}", args.out);
+        let mut cmd = std::process::Command::new(&exe);
+        cmd.arg("c18")
+            .args(["--seed", &args.seed.to_string(), "--cases", &args.cases.to_string(), "--out", &path])
+            .args(["--tables", &tables_path, "--child", &format!("{slice}/{nslices}"), "--child-from", &from.to_string()]);
+        if let Some(n) = args.only {
+            cmd.args(["--only", &n.to_string()]);
         }
-    });
-    for slot in &slots {
-        let o = slot.lock().unwrap().take().expect("case output");
-        out.buf.push_str(&o.buf);
-        for (k, v) in &o.stats {
+        if let Some(mb) = args.extra.get("aslimit-mb") {
+            cmd.args(["--aslimit-mb", mb]);
+        }
+        let err = std::fs::File::create(format!("{path}.stderr")).expect("child stderr");
+        cmd.stderr(err);
+        (cmd.spawn().expect("spawn child"), path)
+    };
+    for slice in 0..nslices {
+        let (c, path) = spawn(slice, 0, 0);
+        children.push((slice, 0, c, path));
+    }
+    let mut harness_failure = false;
+    while let Some((slice, attempt, mut child, path)) = children.pop() {
+        let pid = child.id();
+        let status = child.wait().expect("wait child");
+        if !status.success() {
+            // a dead child leaves its worlds behind
+            for tmp in ["/dev/shm", "/tmp"] {
+                if let Ok(rd) = std::fs::read_dir(tmp) {
+                    for e in rd.flatten() {
+                        if e.file_name().to_string_lossy().starts_with(&format!("vh-c18-{pid}-")) {
+                            let _ = std::fs::remove_dir_all(e.path());
+                        }
+                    }
+                }
+            }
+        }
+        let res = parse_child_file(&path);
+        for (k, v) in &res.stats {
             out.add(k, *v);
         }
+        let crashed = res.crashed_in;
+        all.extend(res.cases);
+        let stderr_tail: String = std::fs::read_to_string(format!("{path}.stderr"))
+            .unwrap_or_default()
+            .lines()
+            .rev()
+            .take(6)
+            .collect::<Vec<_>>()
+            .join(" | ");
+        let _ = std::fs::remove_file(&path);
+        let _ = std::fs::remove_file(format!("{path}.stderr"));
+        if !status.success() {
+            match crashed {
+                Some(n) => {
+                    out.count("child-process-died");
+                    eprintln!("c18: child {slice} died in case {n} ({status}): {stderr_tail}");
+                    // carry on after the case that killed it
+                    let idx = numbers.iter().position(|x| *x == n).unwrap_or(numbers.len());
+                    if attempt < 200 && idx + 1 < numbers.len() {
+                        let (c, p) = spawn(slice, idx + 1, attempt + 1);
+                        children.push((slice, attempt + 1, c, p));
+                    }
+                }
+                None => {
+                    eprintln!("c18: child {slice} failed outside a case ({status}): {stderr_tail}");
+                    harness_failure = true;
+                }
+            }
+        }
+    }
+    for (_, text) in &all {
+        out.buf.push_str(text);
+    }
+    if harness_failure || (args.only.is_none() && all.len() != numbers.len()) {
+        eprintln!("c18: {} of {} cases produced", all.len(), numbers.len());
+        out.finish(&args.out);
+        return 3;
     }
     let mut base = Base::new();
     if args.only.is_none() {
